@@ -57,6 +57,9 @@ func genMsg(r *core.Rand, id int) *msg {
 type treeGen struct {
 	r     *core.Rand
 	leafN int
+	// watchBias: about a third of the leaves are watch probes (concurrent cases: is a reset ever
+	// run while a verifier below martianhttp.Modifier / a fifo.Group is being evaluated?)
+	watchBias bool
 }
 
 func (g *treeGen) scope(n *node) string {
@@ -96,7 +99,11 @@ func (g *treeGen) leaf() *node {
 	r := g.r
 	n := &node{typ: "L"}
 	g.leafN++
-	switch r.Intn(20) {
+	x := r.Intn(21)
+	if g.watchBias && r.Chance(1, 3) {
+		x = 20
+	}
+	switch x {
 	case 0, 1, 2:
 		n.leaf, n.args = "status", []string{strconv.Itoa(statuses[r.Intn(len(statuses))])}
 	case 3, 4, 5, 6:
@@ -121,6 +128,8 @@ func (g *treeGen) leaf() *node {
 		n.leaf = "nop"
 	case 19:
 		n.leaf = "fail"
+	case 20:
+		n.leaf, n.args = "watch", []string{strconv.Itoa(g.leafN)}
 	}
 	n.scope = g.scope(n)
 	core.Count("leaf:" + n.leaf)
@@ -164,8 +173,20 @@ func (g *treeGen) node(depth int) *node {
 	}
 }
 
-func genTree(r *core.Rand) *node {
-	g := &treeGen{r: r}
+func genTree(r *core.Rand) *node { return genTreeB(r, false) }
+
+// genTreeB with watch: trees for the concurrent cases. Half of them have a filter or a bare leaf at
+// the root (no fifo.Group lock between martianhttp.Modifier and the verifiers).
+func genTreeB(r *core.Rand, watch bool) *node {
+	g := &treeGen{r: r, watchBias: watch}
+	if watch && r.Bool() {
+		for i := 0; i < 8; i++ {
+			if n := g.node(0); n.typ == "F" || (n.typ == "L" && n.leaf == "watch") {
+				n.scope = "d"
+				return n
+			}
+		}
+	}
 	// the root is a group or a filter most of the time
 	for i := 0; i < 4; i++ {
 		n := g.node(0)
@@ -189,7 +210,7 @@ func treeOp(r *core.Rand, n *node) string {
 }
 
 func genCase(r *core.Rand, conc bool) []string {
-	ops := []string{treeOp(r, genTree(r))}
+	ops := []string{treeOp(r, genTreeB(r, conc))}
 	id := 0
 	n := r.Range(8, 40)
 	for i := 0; i < n; i++ {
